@@ -119,5 +119,5 @@ def walk_two_vertices(v0, v1, layers):
         else:
             position = (interpolation(value), value)
 
-        vertices_to_return.update(get_layer_elements(position, layers))
+        vertices_to_return.update((int(x), int(y)) for x, y in get_layer_elements(position, layers))
     return vertices_to_return
